@@ -71,6 +71,15 @@ pub fn predicate(name: &str, sc: &Scenario, v: &Violation) -> bool {
             let unread = t.expr.len().saturating_sub(marker_end);
             exits_early && unread > 1024
         }
+        // C: single-script mode recognises any output line containing the divider prefix as a
+        // divider (the salt is never compared)
+        "output-contains-divider-prefix" => sc.sim.programs.values().any(|ops| {
+            ops.iter().any(|op| match op {
+                Op::Out { data, .. } => crate::facts::find(&data.0, b"~~~~~~~~EXECDIVIDER::").is_some(),
+                Op::OutRepeat { unit, .. } => crate::facts::find(&unit.0, b"~~~~~~~~EXECDIVIDER::").is_some(),
+                _ => false,
+            })
+        }),
         _ => false,
     }
 }
